@@ -165,6 +165,7 @@ class St:
         self.tags = {}          # term id -> constructor name learnt from assumed recognisers
         self.use_quantified = False
         self.dict_instantiators = []   # callables (dict id term, key term) -> Bool
+        self.list_instantiators = []   # callables (list id term, index term) -> Bool
         self.instantiators = []   # callables r:Int-term -> Bool : quantifier-free instances of state invariants
         self._tagkeep = []
         self.events = []        # free-form ghost event log (host list of tuples)
@@ -222,6 +223,11 @@ class St:
 
     def assume(self, f):
         if z3.is_true(f):
+            return
+        if z3.is_and(f) and has_quantifier(f):
+            # keep the quantifier-free conjuncts usable by the quantifier-free dispatch queries
+            for c in f.children():
+                self.assume(c)
             return
         self.pc.append(f)
         self._learn(f)
@@ -410,6 +416,14 @@ class St:
                 self.gmemo[mk] = (d, key)
                 for f in self.dict_instantiators:
                     self.assume(f(V.id(d), key))
+
+    def list_read(self, l, idx):
+        if self.list_instantiators:
+            mk = ("linst", tid(l), tid(idx))
+            if mk not in self.gmemo:
+                self.gmemo[mk] = (l, idx)
+                for f in self.list_instantiators:
+                    self.assume(f(V.id(l), idx))
 
     def wf_read(self, v):
         """Heap well-formedness for a value read out of the heap: a reference it carries was
